@@ -433,6 +433,35 @@ def run(index, rep, tier):
                       "Tree.length skips edges under `%s`: only a missing (None) length may keep an edge out of the total (a zero or negative length is a length)" % (norm(odd[0])[:50] if odd else ""))
         rep.ob("R07.12", fn_where(tl_), "Tree.length: %d summation loops examined" % len(loops), True)
 
+    # ---- R07.13 describing a node never fails
+    with rep.section("R07.13"):
+        rep.rule("R07.13", "describing a node never fails: the re-rooting code looks nodes up with list.index() inside `try ... except ValueError`, and CPython builds that ValueError's message with repr(node) -> repr(taxon). So `__repr__` / `__str__` of Taxon, Node, Edge and Tree apply a string method to a label only behind an `is not None` test (or on `str(label)`): a taxon without a label - `Taxon()` - is legal, and an AttributeError raised while the message is built escapes the `except ValueError` half-way through to_outgroup_position, after the outgroup was detached")
+        n13 = 0
+        STRM = ("upper", "lower", "strip", "casefold", "startswith", "endswith", "split", "replace", "encode", "join", "title", "lstrip", "rstrip", "translate", "center", "ljust", "rjust", "zfill")
+        for mod in ("dendropy.datamodel.taxonmodel", TM + "_node", TM + "_edge", TM + "_tree", TM + "_bipartition"):
+            for fi in index.functions_in_module(mod):
+                if fi.name not in ("__repr__", "__str__"):
+                    continue
+                n13 += 1
+                g = None
+                for c in calls_in(fi.node):
+                    if isinstance(c.func, ast.Attribute) and c.func.attr in STRM and isinstance(c.func.value, ast.Attribute) and c.func.value.attr in ("label", "_label"):
+                        x = norm(c.func.value)
+                        g = g or cfg_of(fi)
+                        nd = node_of_ast(g, c)
+
+                        def unknown(s, l, d, x=x):
+                            if s.kind == "test" and isinstance(s.ast, ast.Compare) and len(s.ast.ops) == 1 and norm(s.ast.left) == x and is_none(s.ast.comparators[0]):
+                                if isinstance(s.ast.ops[0], ast.IsNot):
+                                    return l != "t"
+                                if isinstance(s.ast.ops[0], ast.Is):
+                                    return l != "f"
+                            return True
+                        seen = g.reach([g.entry], follow_exc=False, edge_ok=unknown)
+                        rep.check(nd is not None and nd not in seen, "R07.13", fi.qualname, "`%s` on a label that may be None" % norm(c)[:40], fn_where(fi, c), "%s: `%s` only for a label that is set" % (fi.qualname, norm(c)[:40]),
+                                  "%s evaluates `%s` without having established `%s is not None`: a taxon without a label makes repr() raise AttributeError, and repr() is what CPython calls to build the ValueError of `list.index(node)` - in Node.insert_child / to_outgroup_position that error is expected and caught, the AttributeError is not, and the tree is left with the outgroup already detached (4 leaves and length 21 become 3 leaves and length 17)" % (fi.qualname, norm(c)[:50], x))
+        rep.floor("R07.13", "__repr__ / __str__ methods of the tree and taxon model", 4, n13)
+
 
 def pm_target(fi, call):
     pm = parent_map(fi.node)
